@@ -1715,6 +1715,7 @@ fc_statements = [
             "c_mixin_cfi_character_arg",
         ],
         # Null terminate string.
+        c_helper="ShroudStrAlloc ShroudStrFree",
         pre_call=[
             "char *{c_var} = "
             "{cast_static}char *{cast1}{cfi_prefix}{c_var}->base_addr{cast2};",
@@ -1860,7 +1861,7 @@ fc_statements = [
         mixin=[
             "c_mixin_cfi_character_arg",
         ],
-        c_helper="ShroudStrCopy",
+        c_helper="ShroudLenTrim ShroudStrCopy",
         cxx_local_var="scalar",
         pre_call=[
             "char *{c_var} = "
